@@ -535,7 +535,8 @@ is_destructible() const {
  */
 bool CPPStructType::
 is_default_constructible(CPPVisibility min_vis) const {
-  if (is_abstract()) {
+  // A base-class subobject (queried with V_protected) may well be abstract.
+  if (min_vis <= V_public && is_abstract()) {
     return false;
   }
 
@@ -601,7 +602,8 @@ is_default_constructible(CPPVisibility min_vis) const {
  */
 bool CPPStructType::
 is_copy_constructible(CPPVisibility min_vis) const {
-  if (is_abstract()) {
+  // A base-class subobject (queried with V_protected) may well be abstract.
+  if (min_vis <= V_public && is_abstract()) {
     return false;
   }
 
